@@ -26,6 +26,7 @@ type Env struct {
 	paramsEntry bool // names resolve to the frame's parameters (entry values)
 	inOld       bool
 	qdepth      int
+	loop        *LoopInfo // the loop whose invariant is being evaluated
 }
 
 func (e *Env) with(name string, v Val) *Env {
@@ -369,6 +370,11 @@ func (fr *Frame) evalQuant(x *EQuant, env *Env) Val {
 	}
 	rng := "(and (<= " + loT + " " + j + ") (< " + j + " " + hiT + "))"
 	usePat := pattern != "" && strings.Contains(body.C[0], pattern)
+	if usePat {
+		if piv, ok := fr.findPivot(x.Body, x.Var, env); !ok || !c.patternable(piv.C[0]) {
+			usePat = false
+		}
+	}
 	wrap := func(inner string) string {
 		if usePat {
 			return "(! " + inner + " :pattern (" + pattern + "))"
@@ -449,6 +455,28 @@ func (fr *Frame) evalCall(x *ECall, env *Env) Val {
 	c := fr.c
 	arg := func(i int) Val { return fr.evalExpr(x.Args[i], env) }
 	switch x.Fn {
+	case "outer":
+		// value of the expression at the head of the enclosing loop (current outer iteration)
+		if env.loop == nil {
+			c.errorf("%s: outer() outside a loop invariant", fr.name)
+			return intVal("0")
+		}
+		var enc *LoopInfo
+		for _, li := range fr.loops {
+			if li != env.loop && li.blocks[env.loop.header] && li.hstate != nil {
+				if enc == nil || len(li.blocks) < len(enc.blocks) {
+					enc = li
+				}
+			}
+		}
+		if enc == nil {
+			c.errorf("%s: outer(): no enclosing loop", fr.name)
+			return intVal("0")
+		}
+		n := *env
+		n.cur = enc.hstate
+		n.loop = enc
+		return fr.evalExpr(x.Args[0], &n)
 	case "len":
 		v := arg(0)
 		switch v.K {
@@ -526,7 +554,7 @@ func (fr *Frame) evalCall(x *ECall, env *Env) Val {
 		if sp.Rec {
 			return fr.applyRecSpec(sp, x, env)
 		}
-		n := &Env{fr: env.fr, cur: env.cur, old: env.old, vars: map[string]Val{}, params: map[string]Val{}, results: env.results, inOld: env.inOld, qdepth: env.qdepth}
+		n := &Env{fr: env.fr, cur: env.cur, old: env.old, vars: map[string]Val{}, params: map[string]Val{}, results: env.results, inOld: env.inOld, qdepth: env.qdepth, loop: env.loop, useCells: false}
 		for i, p := range sp.Params {
 			n.vars[p.Name] = arg(i)
 		}
